@@ -64,8 +64,8 @@ def dump(typ, val, tb, include_local_traceback, include_local_version):
               traceback text)``. This tuple can be safely passed to
               :func:`brine.dump <rpyc.core.brine.dump>`
     """
-    if typ is StopIteration:
-        return consts.EXC_STOP_ITERATION  # optimization
+    if typ is StopIteration and (val is None or not (val.args or getattr(val, "__dict__", None))):
+        return consts.EXC_STOP_ITERATION  # optimization (a bare StopIteration: no value, no attributes)
     if type(typ) is str:
         return typ
 
